@@ -7,6 +7,7 @@ import (
 	"io"
 	"os"
 	"strconv"
+	"sync"
 
 	"github.com/lidofinance/dc4bc/storage"
 
@@ -18,6 +19,11 @@ var _ storage.Storage = (*FileStorage)(nil)
 
 type FileStorage struct {
 	lockFile *fslock.Lock
+
+	// mu serialises the users of this handle: the lock object above is not made for concurrent
+	// use, and a read must not run into this handle's own append (a node polls the board while
+	// its API handlers post through the same handle)
+	mu sync.Mutex
 
 	dataFile *os.File
 
@@ -74,6 +80,8 @@ func (fs *FileStorage) send(m storage.Message) (storage.Message, error) {
 		data []byte
 		err  error
 	)
+	fs.mu.Lock()
+	defer fs.mu.Unlock()
 	if err = fs.lockFile.Lock(); err != nil {
 		return m, fmt.Errorf("failed to lock a file:  %w", err)
 	}
@@ -120,6 +128,8 @@ func (fs *FileStorage) GetMessages(offset uint64) ([]storage.Message, error) {
 		row  []byte
 		data storage.Message
 	)
+	fs.mu.Lock()
+	defer fs.mu.Unlock()
 	// Read through a descriptor of our own: the handle's descriptor is the one send() rewinds and
 	// counts lines on, and a node polls the board while its API handlers post through the same
 	// handle - sharing the file position makes send() assign wrong offsets.
